@@ -41,6 +41,7 @@ def setup(ctx):
     ctx.require("monitor", "fetches_with_trouble_after_3x", 8)
     ctx.require("monitor", "fetches_with_derived_targets", 40)
     ctx.require("monitor", "cli_fetches", 30)
+    ctx.require("monitor", "fetches_through_slow_chains", 2)
     ctx.require("monitor", "fetches_in_raw_mode", 60)
     ctx.require("monitor", "fetches", 300)
     ctx.require("monitor", "connections_logged", 500)
@@ -55,6 +56,7 @@ class World:
         self.trouble = {}  # (server_index, path) -> 'late-bytes' | 'reset'  (after the response has been sent)
         self.lock = threading.Lock()
         self.verify_calls = []
+        self.slow_served = []
 
         def make(idx):
             def behaviour(conn):
@@ -66,8 +68,19 @@ class World:
                 path = "/" + text.split("://", 1)[-1].split("/", 1)[-1] if "://" in text and "/" in text.split("://", 1)[-1] else "/"
                 path = path.split("?")[0]
                 resp = self.table.get((idx, path), b"51 not in graph\r\n")
-                conn.send(resp)
                 trouble = self.trouble.get((idx, path))
+                if trouble and trouble.startswith("slow:"):
+                    # a hop that takes its time before it answers (well within any sensible per-request timeout)
+                    import time
+
+                    t0 = time.monotonic()
+                    time.sleep(float(trouble.split(":")[1]))
+                    conn.send(resp)
+                    conn.close()
+                    with self.lock:
+                        self.slow_served.append(time.monotonic() - t0)
+                    return
+                conn.send(resp)
                 if trouble:
                     # a hop that misbehaves AFTER its complete response: more bytes once the client has hung up, or
                     # a reset instead of a clean close
@@ -429,6 +442,66 @@ def run_trouble_after_redirect(ctx, world):
     world.trouble.clear()
 
 
+def run_slow_chain(ctx, world):
+    """Every hop of a chain within the limit answers after a second - well inside the client's per-request timeout of
+    3 s, while the chain as a whole takes longer than that: the timeout is a limit on waiting for ONE response, the
+    chain is followed to its end.  (Judged only when every hop was really served within half the timeout.)"""
+    import asyncio
+    import tempfile
+
+    from nauyaca.client.session import GeminiClient
+
+    ports = [srv.port for srv in world.servers]
+
+    def u(i, name):
+        return f"gemini://{world.hosts[i]}:{ports[i]}/{name}"
+
+    for hops, cross in ((4, False), (5, True)):
+        world.table.clear()
+        world.trouble.clear()
+        world.slow_served.clear()
+        for k in range(hops):
+            here, nxt = (k % 3 if cross else 0), ((k + 1) % 3 if cross else 0)
+            world.table[(here, f"/slow{k}")] = f"3{k % 2} {u(nxt, f'slow{k + 1}')}\r\n".encode()
+            world.trouble[(here, f"/slow{k}")] = "slow:1.0"
+        last = hops % 3 if cross else 0
+        world.table[(last, f"/slow{hops}")] = b"20 text/gemini\r\nend of the slow chain\n"
+        world.trouble[(last, f"/slow{hops}")] = "slow:1.0"
+        tmp = tempfile.mkdtemp(prefix="vf-c16s-")
+        marks = world.log_marks()
+
+        async def go():
+            c = GeminiClient(timeout=3.0, max_redirects=5, trust_on_first_use=True, tofu_db_path=Path(os.path.join(tmp, "t.db")))
+            return await c.get(u(0, "slow0"), follow_redirects=True)
+
+        attempts = []
+        for attempt in (1, 2):
+            # (a failure counts only when it repeats: one slow moment of this machine is not the client's doing)
+            world.slow_served.clear()
+            try:
+                r = asyncio.run(go())
+                res = ("response", r.status, r.meta)
+            except BaseException as e:  # noqa: BLE001
+                res = ("error", type(e).__name__, str(e)[:80])
+            for srv in world.servers:
+                srv.wait_idle(3)
+            attempts.append(res)
+            if res[:2] == ("response", 20):
+                break
+        shutil.rmtree(tmp, ignore_errors=True)
+        conns = world.connections_since(marks)
+        served = list(world.slow_served)
+        ctx.count("monitor", "fetches_through_slow_chains")
+        wit = {"level": "slow-chain", "redirects": hops, "max_redirects": 5, "per_request_timeout": 3.0, "each_hop_answers_after": 1.0, "hops_served_in": [round(x, 2) for x in served], "result": res, "attempts": attempts, "connections": len(conns)}
+        if served and max(served) > 1.5:
+            ctx.undecided("slow-chain:this-machine-was-too-slow-for-a-verdict")
+        elif res[:2] != ("response", 20):
+            ctx.violation("chain-not-followed:slow-hops-within-the-timeout", f"a loop-free chain of {hops} redirects (limit 5) whose every hop answered within a third of the timeout ended in {res}", wit)
+        ctx.case(("slow-chain", hops, cross, res[0], res[1]), True, sample=wit)
+    world.trouble.clear()
+    world.table.clear()
+
+
 def run_derived_targets(ctx):
     """Chains that never end and never repeat: every hop redirects to a URL DERIVED from the one just requested
     (a slash appended, a segment appended, a counter in the query, the port written out) - the usual shapes of a
@@ -781,6 +854,8 @@ def run(ctx):
             run_derived_targets(ctx)
         if ctx.mine(3) or ctx.nshards == 1:
             run_cli(ctx, world)
+        if ctx.mine(4) or ctx.nshards == 1:
+            run_slow_chain(ctx, world)
         n = ctx.pick(160, 6000) // ctx.nshards
         for i in range(n):
             nodes, edges, start, label = random_graph(rng, world)
